@@ -829,6 +829,15 @@ Proof.
   destruct (bytes_eq i id) eqn:E; cbn [negb]; auto. cbn [find fst]. now rewrite E.
 Qed.
 
+Lemma att_find_remove_other id id' l : id' <> id -> att_find id' (att_remove id l) = att_find id' l.
+Proof.
+  intros N. unfold att_find, att_remove. induction l as [|[i c] l IH]; cbn [filter find fst]; auto.
+  destruct (bytes_eq i id) eqn:E; cbn [negb].
+  - apply bytes_eq_iff in E. subst i. replace (bytes_eq id id') with false; auto.
+    symmetry. apply bytes_eq_false. congruence.
+  - cbn [find fst]. destruct (bytes_eq i id'); auto.
+Qed.
+
 Section Server.
   Variable H : list byte -> list byte.
   Variable is_stun : list byte -> bool.
@@ -857,11 +866,139 @@ Section Server.
       + intros X. injection X as <- <-. auto.
   Qed.
 
+  (* removeAttempt id: the entry stored under exactly this string is gone from both registries;
+     every other id (in particular one that differs from it only in letter case) and both event
+     queues are untouched *)
   Lemma server_remove s s' o id : sstep H is_stun s (SRemove id) = Ok (s', o) ->
-    att_find id (s_att s') = None /\ reg_find id (d_reg (s_conn s')) = None.
+    att_find id (s_att s') = None /\ reg_find id (d_reg (s_conn s')) = None /\
+    (forall id', id' <> id -> att_find id' (s_att s') = att_find id' (s_att s) /\
+                              reg_find id' (d_reg (s_conn s')) = reg_find id' (d_reg (s_conn s))) /\
+    d_ev (s_conn s') = d_ev (s_conn s) /\ d_stun (s_conn s') = d_stun (s_conn s).
   Proof.
-    cbn [sstep step bind fst snd]. intros X. injection X as <- <-. cbn [s_att s_conn d_reg].
-    split; [apply att_find_remove | apply find_remove_same].
+    cbn [sstep step bind fst snd]. intros X. injection X as <- <-. cbn [s_att s_conn d_reg d_ev d_stun].
+    split; [apply att_find_remove|]. split; [apply find_remove_same|]. split; [|auto].
+    intros id' N. split; [now apply att_find_remove_other | now apply find_remove_other].
+  Qed.
+
+  (* addAttempt id m is accepted iff id is non-empty, m is well formed and no attempt is registered
+     under exactly this string; then both registries hold it under exactly this string; a rejected
+     call changes nothing *)
+  Lemma server_add_exact s id m s' ok : sstep H is_stun s (SAdd id m) = Ok (s', SOAdd ok) ->
+    (ok = true <-> att_find id (s_att s) = None /\ id <> [] /\ is_ok (decode_meta m) = true) /\
+    (ok = true -> att_find id (s_att s') = Some [] /\ reg_find id (d_reg (s_conn s')) = Some m) /\
+    (ok = false -> s' = s).
+  Proof.
+    cbn [sstep]. destruct (att_find id (s_att s)) as [ch|] eqn:F.
+    - intros X. injection X as <- <-. split; [|split; [discriminate|auto]].
+      split; [discriminate|]. intros (X & _). discriminate X.
+    - cbn [step]. destruct id as [|c id].
+      + cbn [bind fst snd]. intros X. injection X as <- <-. split; [|split; [discriminate|]].
+        * split; [discriminate|]. intros (_ & X & _). congruence.
+        * intros _. now destruct s.
+      + destruct (decode_meta m) as [nk|e|n] eqn:E; cbn [bind fst snd]; [| |discriminate].
+        * intros X. injection X as <- <-. cbn [s_att s_conn d_reg is_ok]. split; [|split; [|discriminate]].
+          -- split; auto. intros _. repeat split; auto. discriminate.
+          -- intros _. split.
+             ++ unfold att_find. cbn [find fst]. now rewrite bytes_eq_refl.
+             ++ unfold reg_find, reg_add. cbn [find fst]. now rewrite bytes_eq_refl.
+        * intros X. injection X as <- <-. cbn [is_ok]. split; [|split; [discriminate|]].
+          -- split; [discriminate|]. intros (_ & _ & X). discriminate X.
+          -- intros _. now destruct s.
+  Qed.
+
+  Lemma server_add_fresh s id m : att_find id (s_att s) = None -> id <> [] -> is_ok (decode_meta m) = true ->
+    exists s', sstep H is_stun s (SAdd id m) = Ok (s', SOAdd true).
+  Proof.
+    intros F N Hm. cbn [sstep]. rewrite F. cbn [step]. destruct id as [|c id]; [congruence|].
+    destruct (decode_meta m) as [nk|e|n] eqn:E; try discriminate. cbn [bind fst snd]. eauto.
+  Qed.
+
+  Lemma srun_app l1 : forall s l2 s' outs, srun H is_stun s (l1 ++ l2) = Ok (s', outs) ->
+    exists s1 o1 o2, srun H is_stun s l1 = Ok (s1, o1) /\ srun H is_stun s1 l2 = Ok (s', o2) /\ outs = o1 ++ o2.
+  Proof.
+    induction l1 as [|a l1 IH]; intros s l2 s' outs E.
+    - exists s, [], outs. cbn [srun app] in *. auto.
+    - cbn [app srun] in E. destruct (sstep H is_stun s a) as [[s1 o]|e|n] eqn:Ea; cbn [bind fst snd] in E; try discriminate.
+      destruct (srun H is_stun s1 (l1 ++ l2)) as [[s2 o2]|e|n] eqn:Er; cbn [bind fst snd] in E; try discriminate.
+      assert (s' = s2 /\ outs = o :: o2) as [-> ->] by (split; congruence).
+      destruct (IH _ _ _ _ Er) as (sa & oa & ob & E1 & E2 & ->).
+      exists sa, (o :: oa), ob. cbn [srun]. rewrite Ea. cbn [bind fst snd]. rewrite E1. cbn [bind fst snd]. auto.
+  Qed.
+
+  Hypothesis H_nonempty : forall x, H x <> [].
+
+  Lemma sstep_total s a : exists s' o, sstep H is_stun s a = Ok (s', o).
+  Proof.
+    destruct a as [id m|id| |a|id]; cbn [sstep].
+    - destruct (att_find id (s_att s)); [eauto|].
+      destruct (step_total H is_stun H_nonempty (s_conn s) (AAdd id m)) as (c & o & ->). cbn [bind fst snd].
+      destruct o as [[|]| | | | | |]; eauto.
+    - destruct (step_total H is_stun H_nonempty (s_conn s) (ARemove id)) as (c & o & ->). cbn [bind fst snd]. eauto.
+    - destruct (d_ev (s_conn s)); [eauto|]. destruct (att_find _ _); [|eauto].
+      destruct (Nat.ltb _ _); eauto.
+    - destruct (step_total H is_stun H_nonempty (s_conn s) a) as (c & o & ->). cbn [bind fst snd]. eauto.
+    - destruct (att_find id (s_att s)) as [[|e q]|]; eauto.
+  Qed.
+
+  Lemma sstep_nodup s a s' o : sstep H is_stun s a = Ok (s', o) ->
+    keys_nodup (d_reg (s_conn s)) -> keys_nodup (d_reg (s_conn s')).
+  Proof.
+    intros E N. destruct a as [id m|id| |a|id]; cbn [sstep] in E.
+    - destruct (att_find id (s_att s)); [injection E as <- <-; auto|].
+      destruct (step H is_stun (s_conn s) (AAdd id m)) as [[c o1]|e|n] eqn:Ec; cbn [bind fst snd] in E; try discriminate.
+      destruct (step_registry H is_stun H_nonempty _ _ _ _ [] Ec N) as (N1 & _).
+      destruct o1 as [[|]| | | | | |]; injection E as <- <-; exact N1.
+    - destruct (step H is_stun (s_conn s) (ARemove id)) as [[c o1]|e|n] eqn:Ec; cbn [bind fst snd] in E; try discriminate.
+      destruct (step_registry H is_stun H_nonempty _ _ _ _ [] Ec N) as (N1 & _). injection E as <- <-. exact N1.
+    - destruct (d_ev (s_conn s)); [injection E as <- <-; auto|]. destruct (att_find _ _).
+      + destruct (Nat.ltb _ _); injection E as <- <-; exact N.
+      + injection E as <- <-. exact N.
+    - destruct (step H is_stun (s_conn s) a) as [[c o1]|e|n] eqn:Ec; cbn [bind fst snd] in E; try discriminate.
+      destruct (step_registry H is_stun H_nonempty _ _ _ _ [] Ec N) as (N1 & _). injection E as <- <-. exact N1.
+    - destruct (att_find id (s_att s)) as [[|e q]|]; injection E as <- <-; exact N.
+  Qed.
+
+  Lemma srun_total l : forall s, keys_nodup (d_reg (s_conn s)) ->
+    exists s' outs, srun H is_stun s l = Ok (s', outs) /\ keys_nodup (d_reg (s_conn s')) /\ length outs = length l.
+  Proof.
+    induction l as [|a l IH]; intros s N.
+    - cbn [srun]. eauto.
+    - destruct (sstep_total s a) as (s1 & o & E). pose proof (sstep_nodup _ _ _ _ E N) as N1.
+      destruct (IH s1 N1) as (s2 & outs & E2 & N2 & L2).
+      cbn [srun]. rewrite E. cbn [bind fst snd]. rewrite E2. cbn [bind fst snd].
+      do 2 eexists. repeat split; auto. cbn [length]. lia.
+  Qed.
+
+  (* Respond from registration to return, in any history (any state before, anything happening in
+     between): the run never fails; when it has returned, the attempt id is in neither registry, a
+     datagram that decodes under no other registered attempt - in particular a late or retransmitted
+     punch packet of the finished attempt - is handed to the reader unchanged and changes nothing,
+     and the same id can be registered again *)
+  Lemma respond_done s0 id m mid :
+    keys_nodup (d_reg (s_conn s0)) ->
+    exists s outs, srun H is_stun s0 (respond_trace id m mid) = Ok (s, outs) /\
+      att_find id (s_att s) = None /\ reg_find id (d_reg (s_conn s)) = None /\
+      (forall p from pick, is_stun p = false ->
+         (forall id' m' ty pad, In (id', m') (d_reg (s_conn s)) -> decode_punch H p m' = Ok (ty, pad) -> id' = id) ->
+         sstep H is_stun s (SConn (ARecv p from pick)) = Ok (s, SOConn (OPass p from))) /\
+      (forall m', id <> [] -> is_ok (decode_meta m') = true ->
+         exists s', sstep H is_stun s (SAdd id m') = Ok (s', SOAdd true)).
+  Proof.
+    intros N. destruct (srun_total (respond_trace id m mid) s0 N) as (s & outs & E & Ns & _).
+    exists s, outs. split; [exact E|].
+    unfold respond_trace in E. change (SAdd id m :: mid ++ [SRemove id]) with ((SAdd id m :: mid) ++ [SRemove id]) in E.
+    apply srun_app in E. destruct E as (s1 & o1 & o2 & _ & E2 & _).
+    cbn [srun] in E2. destruct (sstep H is_stun s1 (SRemove id)) as [[s2 o]|e|n] eqn:Er; cbn [bind fst snd] in E2; try discriminate.
+    assert (s2 = s) by congruence. subst s2.
+    destruct (server_remove _ _ _ _ Er) as (Fa & Fr & _).
+    split; [exact Fa|]. split; [exact Fr|]. split.
+    - intros p from pick Es Only. cbn [sstep].
+      destruct (recv_spec H is_stun H_nonempty (s_conn s) p from pick) as (c & o' & E' & _ & _ & Cases). rewrite E'.
+      destruct Cases as [(X & _) | [(_ & ap & ev & m0 & _ & _ & Hin & D & _) | (_ & _ & -> & ->)]]; [congruence| |].
+      + exfalso. pose proof (Only _ _ _ _ Hin D) as Eid. rewrite Eid in Hin.
+        apply in_find in Hin; auto. congruence.
+      + cbn [bind fst snd]. now destruct s.
+    - intros m' Ne Hm. now apply server_add_fresh.
   Qed.
 End Server.
 
@@ -923,6 +1060,40 @@ Example ex_history :
   | _ => False
   end.
 Proof. vm_compute. reflexivity. Qed.
+
+(* ServerPuncher.Respond under an attempt id spelled with upper-case hex digits (the rendezvous
+   nonce text as received): its hello is withheld and ends the attempt; afterwards a retransmitted
+   hello of the finished attempt and a marker reach the reader, the same spelling can be registered
+   again (and its packets are withheld again), and the lower-case spelling is a different attempt
+   that is neither created nor removed by any of this *)
+Definition ex_ID : list byte := [x41;x31;x42;x32].   (* "A1B2" *)
+Definition ex_id : list byte := [x61;x31;x62;x32].   (* "a1b2" *)
+Definition ex_marker : list byte := [x6d;x61;x72;x6b;x65;x72].
+
+Example ex_respond :
+  match srun256 stun_hdr_ok (mkS (d_new 4) [])
+          (SAdd ex_id (ex_meta 2) ::
+           respond_trace ex_ID (ex_meta 1)
+             [SAdd ex_ID (ex_meta 3);                          (* duplicate while in flight *)
+              SConn (ARecv (ex_pkt 1 1 5) ex_from pick0); SDispatch; STake ex_ID] ++
+           [SConn (ARecv (ex_pkt 1 1 9) ex_from pick0);        (* late hello: reaches the reader *)
+            SConn (ARecv ex_marker ex_from pick0);
+            SConn (ARecv (ex_pkt 2 1 0) ex_from pick0); SDispatch; STake ex_id;   (* "a1b2" still registered *)
+            SAdd ex_ID (ex_meta 1);                            (* same spelling again: accepted *)
+            SConn (ARecv (ex_pkt 1 1 9) ex_from pick0)]) with
+  | Ok (s, outs) =>
+      outs = [SOAdd true; SOAdd true; SOAdd false;
+              SOConn (OPunch (mkEv ex_ID ([x0a;x00;x00;x01], 4433%Z) 1 5)); SORouted (Some ex_ID);
+              SOTake (Some (mkEv ex_ID ([x0a;x00;x00;x01], 4433%Z) 1 5)); SONone;
+              SOConn (OPass (ex_pkt 1 1 9) ex_from); SOConn (OPass ex_marker ex_from);
+              SOConn (OPunch (mkEv ex_id ([x0a;x00;x00;x01], 4433%Z) 1 0)); SORouted (Some ex_id);
+              SOTake (Some (mkEv ex_id ([x0a;x00;x00;x01], 4433%Z) 1 0));
+              SOAdd true;
+              SOConn (OPunch (mkEv ex_ID ([x0a;x00;x00;x01], 4433%Z) 1 9))] /\
+      map fst (d_reg (s_conn s)) = [ex_ID; ex_id]
+  | _ => False
+  end.
+Proof. vm_compute. split; reflexivity. Qed.
 
 (* codec: both types, padding 0 and 1024; cross-attempt and damaged packets are rejected *)
 Example ex_codec :
